@@ -74,7 +74,7 @@ def _concrete(v) -> bool:
         return True
     if isinstance(v, dict):
         return all(_concrete(k) and _concrete(x) for k, x in v.items())
-    if isinstance(v, (list, tuple)) and not isinstance(v, Vec1):
+    if isinstance(v, (list, tuple, set, frozenset)) and not isinstance(v, Vec1):
         return all(_concrete(x) for x in v)
     return False
 
@@ -205,7 +205,7 @@ class Evaluator:
             return
         if isinstance(s, ast.If):
             t = self.ev(s.test, f)
-            if t is UNKNOWN or not isinstance(t, (bool, int, list, tuple, type(None), str, dict)):
+            if t is UNKNOWN or not isinstance(t, (bool, int, list, tuple, type(None), str, dict, set, frozenset)):
                 raise NotEval("undetermined branch")
             self.block(s.body if t else s.orelse, f)
             return
@@ -347,7 +347,7 @@ class Evaluator:
             if isinstance(e.op, ast.USub):
                 return self.binop(0, ast.Sub(), v)
             if isinstance(e.op, ast.Not):
-                if isinstance(v, (bool, int, list, tuple, type(None), str)):
+                if isinstance(v, (bool, int, list, tuple, type(None), str, set, frozenset, dict)):
                     return not v
                 raise NotEval("not of a symbolic value")
             raise NotEval("unary op")
@@ -363,12 +363,14 @@ class Evaluator:
                 return (a == b) if isinstance(op, ast.Eq) else (a != b)
             if all(isinstance(x, (int, float, str, bool)) for x in (a, b)):
                 return {ast.Lt: a < b, ast.LtE: a <= b, ast.Gt: a > b, ast.GtE: a >= b, ast.Eq: a == b, ast.NotEq: a != b}.get(type(op), None) if type(op) in (ast.Lt, ast.LtE, ast.Gt, ast.GtE, ast.Eq, ast.NotEq) else self._raise("compare")
-            if isinstance(op, (ast.In, ast.NotIn)) and isinstance(b, (list, tuple)) and all(isinstance(x, (int, str)) for x in list(b) + [a]):
+            if isinstance(op, (ast.In, ast.NotIn)) and isinstance(b, dict):
+                b = list(b.keys())
+            if isinstance(op, (ast.In, ast.NotIn)) and isinstance(b, (list, tuple, set, frozenset)) and all(isinstance(x, (int, str)) for x in list(b) + [a]):
                 return (a in b) if isinstance(op, ast.In) else (a not in b)
             raise NotEval("symbolic comparison")
         if isinstance(e, ast.BoolOp):
             vals = [self.ev(v, f) for v in e.values]
-            if all(isinstance(v, (bool, int, type(None), list, tuple, str)) for v in vals):
+            if all(isinstance(v, (bool, int, type(None), list, tuple, str, set, frozenset, dict)) for v in vals):
                 r = vals[0]
                 for v in vals[1:]:
                     r = (r and v) if isinstance(e.op, ast.And) else (r or v)
@@ -389,6 +391,11 @@ class Evaluator:
                     raise NotEval("symbolic dict key")
                 out[k] = v
             return out
+        if isinstance(e, ast.Set):
+            vals = [self.ev(x, f) for x in e.elts]
+            if all(_concrete(v) and not isinstance(v, (list, dict)) for v in vals):
+                return set(vals)
+            raise NotEval("symbolic set element")
         if isinstance(e, ast.Dict):
             from collections import OrderedDict
             out = OrderedDict()
@@ -469,6 +476,16 @@ class Evaluator:
             if isinstance(b, Vec1) and scalar(a):
                 return Vec1(self.binop(a, op, y) for y in b)
             raise NotEval("tensor with non-scalar")
+        if isinstance(a, (set, frozenset, Keys)) and isinstance(b, (set, frozenset, Keys)):
+            x, y = set(a), set(b)
+            if isinstance(op, ast.BitAnd):
+                return x & y
+            if isinstance(op, ast.BitOr):
+                return x | y
+            if isinstance(op, ast.Sub):
+                return x - y
+            if isinstance(op, ast.BitXor):
+                return x ^ y
         if isinstance(a, (list, tuple)) and isinstance(b, (list, tuple)) and isinstance(op, ast.Add):
             return (list(a) + list(b)) if isinstance(a, list) else tuple(a) + tuple(b)
         if isinstance(op, ast.Mult) and ((isinstance(a, (list, tuple)) and isinstance(b, int)) or (isinstance(b, (list, tuple)) and isinstance(a, int))):
@@ -553,6 +570,17 @@ class Evaluator:
                 return self.ev(fn.value, f)
             if m == "to":
                 return self.ev(fn.value, f)
+            if m in ("isdisjoint", "issubset", "issuperset", "intersection", "union", "difference") and len(e.args) == 1 and not e.keywords:
+                recv = self.ev(fn.value, f)
+                arg = self.ev(e.args[0], f)
+                if isinstance(recv, dict):
+                    recv = set(recv.keys())
+                if isinstance(arg, dict):
+                    arg = set(arg.keys())
+                if isinstance(recv, (set, frozenset, list, tuple)) and isinstance(arg, (set, frozenset, list, tuple)) and _concrete(list(recv)) and _concrete(list(arg)):
+                    r, a2 = set(recv), set(arg)
+                    return {"isdisjoint": r.isdisjoint(a2), "issubset": r <= a2, "issuperset": r >= a2, "intersection": r & a2, "union": r | a2, "difference": r - a2}[m]
+                raise NotEval("set method on symbolic values")
             if m in ("keys", "values", "items") and not e.args:
                 v = self.ev(fn.value, f)
                 if isinstance(v, dict):
@@ -636,6 +664,21 @@ class Evaluator:
             t = Term(kind, [])
             t.args = frozenset(flat)
             return t if len(t.args) > 1 else self._single(items[0])
+        if name in ("any", "all") and len(e.args) == 1:
+            a = A()
+            if isinstance(a[0], (list, tuple, set)) and all(isinstance(x, (bool, int, type(None), str, list, tuple, set, dict)) for x in a[0]):
+                return any(a[0]) if name == "any" else all(a[0])
+            raise NotEval(f"{name} of symbolic values")
+        if name in ("set", "frozenset"):
+            a = A()
+            if not a:
+                return set()
+            v = a[0]
+            if isinstance(v, dict):
+                v = list(v.keys())
+            if isinstance(v, (list, tuple, set, frozenset)) and _concrete(list(v)):
+                return set(v)
+            raise NotEval("set of symbolic values")
         if name == "sum":
             a = A()
             if isinstance(a[0], (list, tuple)):
@@ -648,7 +691,7 @@ class Evaluator:
             a = A()
             if name in ("int", "float") and len(a) == 1 and scalar(a[0]):
                 return a[0]
-            if name == "bool" and len(a) == 1 and isinstance(a[0], (bool, int, type(None), list, tuple, str)):
+            if name == "bool" and len(a) == 1 and isinstance(a[0], (bool, int, type(None), list, tuple, str, set, frozenset, dict)):
                 return bool(a[0])
             raise NotEval(name)
         if name in ("torch.tensor", "torch.as_tensor", "torch.Tensor", "torch.stack", "torch.hstack", "np.array", "torch.cat"):
